@@ -59,7 +59,7 @@ func init() { core.Register(c06{}) }
 func (c06) ID() string { return "C06" }
 
 var c06Kinds = []string{"simple", "indexed", "multi", "multiarray", "merged", "teeing",
-	"concurrent-simple", "concurrent-indexed", "concurrent-multi", "concurrent-multiarray", "temporal-adapter"}
+	"concurrent-simple", "concurrent-indexed", "concurrent-multi", "concurrent-multiarray", "temporal-adapter", "temporal-adapter-teeing"}
 
 func (c06) Cases(tier string) int {
 	if tier == "thorough" {
@@ -71,7 +71,7 @@ func (c06) Cases(tier string) int {
 func (c06) Describe() core.Info {
 	return core.Info{
 		Level: "exploration",
-		Rule: "random histories (15-120 ops) of add/remove/contains/query/list/count/merge over a ~40-atom universe (same symbol with arities 0,1,2; all constant kinds; patterns with constants in non-first columns) on 11 store kinds x 2 universes (plain: pairwise distinct Atom.Hash; collide: contains hash-equal distinct atoms); oracle = Go map keyed by canonical encoding, layered for merged/teeing; multi-indexed stores additionally walked by the verif index-agreement hook at quiescent points; on the concurrent wrappers the history is followed by a contended phase: 4 goroutines add and remove the same <= 4 atoms at once and, at quiescence, (Adds that returned true) - (Removes that returned true) must equal the change in membership of each atom (exactly-once conservation, no search needed). Non-trivial: history has a remove-then-query or a merge and reaches >= 4 distinct model states; distinct by hash of (kind, op sequence).",
+		Rule: "random histories (15-120 ops) of add/remove/contains/query/list/count/merge over a ~40-atom universe (same symbol with arities 0,1,2; all constant kinds; patterns with constants in non-first columns) on 12 store kinds (incl. the temporal adapter over a plain and over a layered temporal store) x 2 universes (plain: pairwise distinct Atom.Hash; collide: contains hash-equal distinct atoms); oracle = Go map keyed by canonical encoding, layered for merged/teeing; multi-indexed stores additionally walked by the verif index-agreement hook at quiescent points; on the concurrent wrappers the history is followed by a contended phase: 4 goroutines add and remove the same <= 4 atoms at once and, at quiescence, (Adds that returned true) - (Removes that returned true) must equal the change in membership of each atom (exactly-once conservation, no search needed). Non-trivial: history has a remove-then-query or a merge and reaches >= 4 distinct model states; distinct by hash of (kind, op sequence).",
 		Assumptions: []string{"canon encoding is injective (unit-tested)", "ListPredicates may list stale empty predicates", "EstimateFactCount of merged/teeing may over-estimate (documented)"},
 	}
 }
@@ -142,7 +142,7 @@ func (c06) Gen(r *rand.Rand, tier string, i int) any {
 		atoms[j] = c06RandAtom(r, pool)
 	}
 	pick := func() gen.AtomV { return atoms[r.Intn(len(atoms))] }
-	if c.Kind == "merged" || c.Kind == "teeing" {
+	if c.Kind == "merged" || c.Kind == "teeing" || c.Kind == "temporal-adapter-teeing" {
 		n := r.Intn(8)
 		for j := 0; j < n; j++ {
 			c.Pre = append(c.Pre, pick())
@@ -256,6 +256,14 @@ func c06Build(kind string, pre []gen.AtomV) c06Store {
 	case kind == "temporal-adapter":
 		ts := factstore.NewTemporalStore()
 		return c06Store{fs: factstore.NewTemporalFactStoreAdapter(ts), exact: true}
+	case kind == "temporal-adapter-teeing":
+		// the adapter over a layered temporal store (the interpreter's configuration): the base layer holds the
+		// preloaded atoms for all time, writes go to the output layer
+		base := factstore.NewTemporalStore()
+		for _, a := range pre {
+			base.AddEternal(a.Atom())
+		}
+		return c06Store{fs: factstore.NewTemporalFactStoreAdapter(factstore.NewTeeingTemporalStore(base))}
 	default:
 		b := newBase(kind)
 		return c06Store{fs: b, rm: b, exact: true, indexed: b}
@@ -715,7 +723,7 @@ func (c06) Run(cs any) core.Result {
 	sig := cur.sig
 	// diagnosis: hash-equal distinct atoms conflated by a hash-keyed store
 	base := strings.TrimPrefix(c.Kind, "concurrent-")
-	hashKeyedKind := base == "simple" || base == "indexed" || base == "multi" || base == "temporal-adapter"
+	hashKeyedKind := base == "simple" || base == "indexed" || base == "multi" || base == "temporal-adapter" || base == "temporal-adapter-teeing"
 	if hashKeyedKind {
 		if col := c06Collisions(min); len(col) > 0 {
 			var scratch core.Result
